@@ -37,6 +37,11 @@ package sema
 //@ schema fixlit(N=UFix64, S=8, MIN=0, MAX=pow2(64)-1, UNSIGNED=true)
 //@ schema fixlit(N=Fix128, S=24, MIN=-pow2(127), MAX=pow2(127)-1, UNSIGNED=false)
 //@ schema fixlit(N=UFix128, S=24, MIN=0, MAX=pow2(128)-1, UNSIGNED=true)
+// The abstract supertypes: a literal whose expected type is SignedFixedPoint is represented as a Fix64 at run time, one
+// whose expected type is FixedPoint as a Fix64 when negative and as a UFix64 otherwise; "out of range" therefore means
+// out of the range of that representation (scale 8).
+//@ schema fixlit(N=SignedFixedPoint, S=8, MIN=-pow2(63), MAX=pow2(63)-1, UNSIGNED=false)
+//@ schema fixlit(N=FixedPoint, S=8, MIN=-pow2(63), MAX=pow2(64)-1, UNSIGNED=false)
 
 // The same function for an integer target type (a fixed-point literal passed where an integer is expected: only the
 // integer part is range-checked): accepted exactly when +-integer lies within the type's bounds; the literal's own
